@@ -26,6 +26,40 @@ if _alt:
 import common  # noqa: E402
 
 
+def _watchdog(ctx, prop, tier):
+    """A run that does not come back.  On the unchanged tree that is an infrastructure error (exit 2).  On a tree
+    whose sources differ from the committed baseline, changed code that never returns control (a loop that lost
+    its exit or its sleep) has kept the correspondence from being completed: reported like every other
+    correspondence that no longer checks, with whatever failing inputs were found before."""
+    import threading
+    import time
+
+    limit = float(os.environ.get("VERIF_WALL_LIMIT", "1800" if tier == "quick" else "14400"))
+
+    def fire():
+        time.sleep(limit)
+        try:
+            import drift
+            changed = bool(getattr(ctx, "drift", None)) or drift.drift_any()
+        except Exception:
+            changed = False
+        if not changed:
+            print(f"INFRASTRUCTURE-ERROR property={prop}: no result after {limit:.0f} s on a tree equal to the baseline", file=sys.stderr, flush=True)
+            os._exit(2)
+        ctx.crash = f"the run did not finish within {limit:.0f} s: code under test did not return control (sources differ from the committed baseline)"
+        ctx.notes.append(ctx.crash)
+        try:
+            mod = sys.modules.get(f"props.{prop.lower()}")
+            rc = common.finish(ctx, getattr(mod, "MATCHERS", {}))
+        except BaseException as e:
+            print(f"INFRASTRUCTURE-ERROR property={prop}: watchdog could not write the verdict: {e}", file=sys.stderr, flush=True)
+            rc = 2
+        sys.stdout.flush()
+        os._exit(rc)
+
+    threading.Thread(target=fire, daemon=True, name="verif-watchdog").start()
+
+
 def main(argv):
     if not argv:
         print(__doc__)
@@ -56,6 +90,7 @@ def main(argv):
             obj = json.load(f)
         return mod.replay(obj)
     ctx = common.Ctx(prop, tier, seed)
+    _watchdog(ctx, prop, tier)
     try:
         ctx.lean_stage(mod.MODULES, getattr(mod, "GEN", None), clean=ctx.thorough())
         if ctx.thorough() and ctx.lean["build_ok"]:
@@ -85,6 +120,7 @@ def main(argv):
         # a new branch that no generated input reaches is code the model was never compared with
         cov = drift.Coverage(drift.new_statements(ctx.drift) if ctx.drift else [], common.RUN)
         cov.start()
+        ctx.matchers = getattr(mod, "MATCHERS", {}) or {}
         try:
             mod.run(ctx)
             if ctx.disagreements and not ctx.failures and ctx.boost < 8:
@@ -92,6 +128,19 @@ def main(argv):
                 ctx.notes.append("correspondence differs: failing-input search with boosted budget")
                 ctx.search_only = True
                 mod.run(ctx)
+        except common.Infra:
+            raise
+        except common.Enough:
+            ctx.notes.append(f"search stopped after {common.ENOUGH} failing inputs that no known finding accounts for")
+        except Exception:
+            # the oracle / correspondence code itself raised.  On the unchanged tree that is a defect of the
+            # harness (exit 2).  On a tree whose sources differ from the committed baseline it means the changed
+            # code handed the harness something it was never written for: the correspondence could not be
+            # completed, which is reported like any other correspondence that no longer checks.
+            if not (proof_broken or ctx.drift or drift.drift_any()):
+                raise
+            ctx.crash = traceback.format_exc()
+            ctx.notes.append("the harness's own oracle raised while driving changed code: correspondence incomplete")
         finally:
             cov.stop()
         one = cov.one_sided()
